@@ -22,6 +22,21 @@ def scenarios(rng, tier):
             for rep in range(3):
                 s.op('adv', (tmo - rng.choice([0, 1])) * 1000); s.op('ss_map 0', x)
                 s.op('adv', (tmo - rng.choice([0, 1, 2])) * 1000); s.op('ss_map 0', rng.choice([6, 4, 11, 1]) if st == 1 else rng.choice([4, 1, 7]))
+    # inputs that alias others in 8 bits (0xFD ~ -3, 0xFF ~ -1, 0x100 ~ 0, 0x102 ~ 2) right before the real one, same second
+    for st in (1, 2):
+        for x, y in ((253, -3), (255, -1), (256, 0), (258, 2), (264, 8), (-254, 2), (-248, 8), (-3, 253), (-1, 255), (4, 4), (2, 2)):
+            s.start('alias_s%d_%d_%d' % (st, x, y)); s.op('mk 0'); s.op('adv', 1000 + rng.randrange(9000)); s.op('ss_map 0 0')
+            if st == 2: s.op('ss_map 0 2')
+            s.op('ss_map 0', x); s.op('ss_map 0', y); s.op('adv 200'); s.op('ss_map 0', x); s.op('ss_map 0', y); s.op('ss_map 0', y)
+    # the 30 s tick must EMPTY the table, also when live sessions sit behind a hole (an older one removed / expired): look them up afterwards
+    for k in range(10 if tier == 'quick' else 200):
+        s.start('hole_%d' % k); s.op('mk 0'); s.op('adv', 1000 + rng.randrange(9000)); A, Bm, Cm = hx(mac(1)), hx(mac(2)), hx(mac(3))
+        s.op('ss_map 0 0'); s.op('map_touch 0'); s.op('st_add 0', A, 1, 1); s.op('adv', rng.choice([1000, 20000, 40000])); s.op('st_add 0', Bm, 1, 1); s.op('st_add 0', Cm, 2, 1); s.op('map_touch 0')
+        if k % 2: s.op('st_remove 0', A, 1)
+        else:
+            for i in range(5): s.op('adv 5000'); s.op('st_add 0', Bm, 1, 1); s.op('st_add 0', Cm, 2, 1); s.op('map_touch 0'); s.op('ss_map 0 6'); s.op('tick 0')
+        s.op('adv', rng.choice([30000, 31000, 45000])); s.op('tick 0')
+        for m_, g_ in ((A, 1), (Bm, 1), (Cm, 2)): s.op('st_find 0', m_, g_)
     nseq = 30 if tier == 'quick' else 1000
     for k in range(nseq):
         s.start('seq_%d' % k); s.op('mk 0'); s.op('adv', 1000 + rng.randrange(5000))
@@ -39,7 +54,7 @@ def oracle(name, ib, mb, meta):
     Command -> Emit, emission complete (-3) back, Reset (8) / -1 end the session, everything else unchanged; an active
     state left without input for longer than its time-out is idle at the next input (only a Discover reopens in that
     step); 30 s after the last frame the tick ends the session, clears the charge counter and empties the table"""
-    fails = []; now = 0; st = 0; last_in = 0; last_frame = None
+    fails = []; now = 0; st = 0; last_in = 0; last_frame = None; after_drop = False
     F = V.facts()
     for i, b in enumerate(ib):
         if b.fault: break
@@ -61,16 +76,19 @@ def oracle(name, ib, mb, meta):
             last_in = ns
             if got != st:
                 fails.append((i, 'mapping engine in state %d after input %d at %d s; the state machine of the property gives %d' % (got, inp, ns, st))); break
+        elif t[0] == 'st_find' and name.startswith('hole') and after_drop and b.kv.get('ret') not in (None, '-1'):
+            fails.append((i, 'session %s/%s is still found (slot %s) after the 30 s inactivity tick that must empty the session table' % (t[2], t[3], b.kv.get('ret')))); break
         elif t[0] == 'tick' and 'map' in b.kv:
             ns = now // 1000
             if last_frame is not None and ns >= last_frame + 30:
                 got = int(b.kv['map'].split('@')[0])
                 if got != 0 or b.kv.get('ctc') != '0' or b.kv.get('cnt') not in (None, '0'):
                     fails.append((i, '30 s without a frame (last at %d s, tick at %d s): state %d, charge counter %s, %s sessions; must be idle / 0 / none' % (last_frame, ns, got, b.kv.get('ctc'), b.kv.get('cnt')))); break
-                st = 0; last_frame = None; last_in = ns
+                st = 0; last_frame = None; last_in = ns; after_drop = True
     return fails
 def project(blk, name, meta):
-    if blk.op.startswith(('st_add',)): return project_keys(blk, ['cnt'])
+    if blk.op.startswith(('st_add', 'st_remove')): return project_keys(blk, ['cnt'])
+    if blk.op.startswith('st_find'): return (blk.kv.get('ret') == '-1',)
     return project_keys(blk, ['map', 'ctc', 'chg', 'inact'] + (['cnt', 'empty'] if blk.op.startswith('tick') else []))
 def count(name, lines, ib, stats, meta):
     prev = None
